@@ -61,7 +61,7 @@ META = {
         "is table-consistent, the guard stage faults iff the modelled guard raises and no other stage faults, the run ends "
         "(Finished, Complete). That no OTHER stage (parsing, repair, debump, hydrogen optimisation, pKa, parameter lookup) "
         "raises on a well-formed structure is NOT a theorem: it is exploration over builder structures x force fields "
-        "(evidence keys `success_runs_explored`, `forcefield_defines_class_explored`). Tree state: C12-F1/F2/F4/F5 fixed "
+        "(untitrated, and titrated through a stubbed run_propka: every titratable type x position x state x force field; evidence keys `success_runs_explored`, `forcefield_defines_class_explored`). Tree state: C12-F1/F2/F4/F5 fixed "
         "in /repo (9484706, 8895359, 7917ee7, 79b0276); one success-side defect stays known: C12-F3 (one-nucleotide chain)."
     ),
     "level_note": (
@@ -528,6 +528,16 @@ class Runner:
 
             spy.__wrapped__ = orig_print
             pmain.print_pqr = spy
+        orig_propka = getattr(pmain, "run_propka", None)
+        if case.get("propka_rows") is not None and orig_propka is not None:
+            rows_ = [dict(r) for r in case["propka_rows"]]
+            stub_calls = []
+
+            def stub_propka(a, b):
+                stub_calls.append(1)
+                return rows_, "stub pKa table (harness)"
+
+            pmain.run_propka = stub_propka
         tracer = Tracer(self.codes, self.smap, case.get("fault"))
         obs = {"exc": None, "cause": None, "raise_stage": None, "finished": False}
         exc_obj = None
@@ -565,6 +575,8 @@ class Runner:
             requests.get = orig_get
             if orig_print is not None:
                 pmain.print_pqr = orig_print
+            if orig_propka is not None:
+                pmain.run_propka = orig_propka
         if exc_obj is not None:
             obs["exc"] = type(exc_obj).__name__
             obs["exc_msg"] = str(exc_obj)[:200]
@@ -591,6 +603,7 @@ class Runner:
         obs["fired"] = tracer.fired
         obs["opens"] = mon.events
         obs["wd"] = wd
+        obs["propka_stub_calls"] = len(stub_calls) if case.get("propka_rows") is not None and orig_propka is not None else None
         obs["loud"] = exc_obj is not None and not (isinstance(exc_obj, SystemExit) and exc_obj.code in (0, None))
         return obs
 
@@ -1073,6 +1086,69 @@ def success_structures(ctx):
     return S
 
 
+TITRATABLE = ["ASP", "GLU", "HIS", "CYS", "TYR", "LYS", "ARG"]
+TYPICAL_TERMINUS_PKA = {"N+": 8.0, "C-": 3.2}
+
+
+def propka_rows(seq, pkas, chain="A"):
+    """Rows in the layout main.run_propka returns (the layout c06.py checks against a real PROPKA
+    run). pkas: {(0-based index, group): pKa}, group = residue type or 'N+' / 'C-'."""
+    rows = []
+    for (i, g), v in sorted(pkas.items()):
+        rtype = g if g in ("N+", "C-") else seq[i]
+        rows.append({"res_num": i + 1, "ins_code": " ", "res_name": seq[i], "chain_id": chain,
+                     "group_label": f"{rtype:<3s}{i + 1:>4d}{chain:>2s}",
+                     "group_type": "N+" if g == "N+" else "COO" if g in ("C-", "ASP", "GLU") else g,
+                     "pKa": float(v), "model_pKa": float(v), "buried": 0.0, "coupled_group": None})
+    return rows
+
+
+def titrated_structures(ctx):
+    """Every titratable residue type at N-terminal, internal and C-terminal position, driven to both
+    of its states through a stubbed main.run_propka (pH 5 vs pKa 9 = protonated, pH 9 vs pKa 5 =
+    deprotonated), plus pH values that flip the termini and a high-pH run of an all-titratable chain."""
+    from harness import builder as B
+
+    S = []
+
+    def add(tag, seq, ph, pkas, cells):
+        atoms = B.build_peptide(seq)
+        S.append({"tag": tag, "pdb": B.to_pdb(atoms), "classes": ["protein"], "cells": cells, "n_res": len(seq), "n_heavy": len(atoms),
+                  "opts": ["--titration-state-method=propka", f"--with-ph={ph}"], "propka_rows": propka_rows(seq, pkas), "titrated": True})
+
+    for t in TITRATABLE:
+        for pos, seq, idx in (("nterm", [t, "ALA", "GLY"], 0), ("mid", ["ALA", t, "GLY"], 1), ("cterm", ["ALA", "GLY", t], 2)):
+            for state, ph, pka in (("protonated", "5.00", 9.0), ("deprotonated", "9.00", 5.0)):
+                pk = {(idx, t): pka, (0, "N+"): TYPICAL_TERMINUS_PKA["N+"], (2, "C-"): TYPICAL_TERMINUS_PKA["C-"]}
+                add(f"titr-{t}-{pos}-{state}", seq, ph, pk, [(t, pos, state)])
+    allt = ["LYS", "ASP", "HIS", "CYS", "TYR", "GLU", "ARG", "LYS"]
+    typical = {"ASP": 3.8, "GLU": 4.5, "HIS": 6.5, "CYS": 8.3, "TYR": 10.1, "LYS": 10.5, "ARG": 12.5}
+    for ph in ("2.00", "7.00", "11.00", "13.50"):
+        pk = {(i, t): typical[t] for i, t in enumerate(allt)}
+        pk[(0, "N+")] = 8.0
+        pk[(len(allt) - 1, "C-")] = 3.2
+        add(f"titr-all-ph{ph}", allt, ph, pk, [("all-titratable", "typical-pKa", ph)])
+    return S
+
+
+def lost_heavy_atoms(pdb_text, rows):
+    """Independent rule: every input residue must appear in the PQR with all the heavy atoms it
+    came with (matched by residue number and atom name). -> [(resname, resseq, [lost names])]"""
+    inp = {}
+    for l in pdb_text.splitlines():
+        if l.startswith(("ATOM", "HETATM")):
+            inp.setdefault((l[17:20].strip(), l[22:26].strip()), []).append(l[12:16].strip())
+    out = {}
+    for r in rows:
+        out.setdefault(str(r["resseq"]).strip(), set()).add(r["name"])
+    lost = []
+    for (rn, rs), names in inp.items():
+        miss = [n for n in names if n not in out.get(rs, set())]
+        if miss:
+            lost.append((rn, rs, miss))
+    return lost
+
+
 def residue_position(res):
     pos = []
     for attr, nm in (("is_n_term", "nterm"), ("is_c_term", "cterm"), ("is5term", "5term"), ("is3term", "3term")):
@@ -1114,6 +1190,9 @@ def diagnose_success_failure(obs):
 def run_success(ctx, runner, smap, st, ff, cov):
     case = {"kind": "success", "tag": st["tag"], "ff": ff, "files": {"in.pdb": st["pdb"]}, "classes": st["classes"],
             "argv": [f"--ff={ff}", *st["opts"], "{wd}/in.pdb", "{wd}/out.pqr"], "pre": False, "n_res": st["n_res"]}
+    if st.get("propka_rows") is not None:
+        case["propka_rows"] = st["propka_rows"]
+        case["titrated"] = True
     pmain = runner.pmain
     got = {}
     orig = pmain.main_driver
@@ -1154,6 +1233,14 @@ def run_success(ctx, runner, smap, st, ff, cov):
             cd = charge_column_defect(obs["text"])
             if cd:
                 bad.append(({**base, "condition": "pqr-written-with-nonintegral-total-charge"}, f"{st['tag']} --ff={ff}: charge column sums to {cd[0]} (off by {cd[1]}, bound {cd[2]})"))
+            if st.get("titrated"):
+                lost = lost_heavy_atoms(st["pdb"], rows)
+                if lost:
+                    culprits = diagnose_success_failure(obs) or ["none"]
+                    for c in culprits:
+                        bad.append(({**base, "condition": "titrated-residue-lost-heavy-atoms", "culprit": c},
+                                    f"{st['tag']} --ff={ff}: run returned (exit 0) but input heavy atoms are absent from the PQR: "
+                                    f"{[(a, b, len(m)) for a, b, m in lost]} (residue, number, #atoms); unparameterised per the run's own list: {c}"))
             if not rows or nres_out < nres_in:
                 culprits = [c for c in diagnose_success_failure(obs) if c.endswith(":*")] or ["none"]
                 for c in culprits:
@@ -1461,7 +1548,7 @@ def run(ctx):
     # ---- success side (exploration)
     cov, detail = ff_coverage()
     ctx.cov["forcefield_defines_class_explored"] = {f"{ff}:{c}": v for (ff, c), v in sorted(cov.items())}
-    sts = success_structures(ctx)
+    sts = success_structures(ctx) + titrated_structures(ctx)
     nsucc = 0
     for st in sts:
         for ff in FFS:
@@ -1470,6 +1557,13 @@ def run(ctx):
                 continue
             case, obs, bad = run_success(ctx, runner, smap, st, ff, cov)
             nsucc += 1
+            if st.get("titrated"):
+                names = {l[17:20] for l in atom_lines(obs["text"] or "")}
+                ctx.count("titrated:stub-called" if obs.get("propka_stub_calls") else "titrated:STUB-NOT-CALLED")
+                for nm in sorted(names - {"ALA", "GLY"}):
+                    ctx.count(f"titrated:output-resname:{nm}")
+                if not obs.get("propka_stub_calls") and not obs["exc"]:
+                    ctx.broke("correspondence-broken", "titrated success run did not reach main.run_propka (stub not called)", st["tag"], {"tag": st["tag"], "ff": ff})
             ctx.count(f"success:{ff}:{'ok' if not bad else 'FAILED'}")
             for cell in st["cells"]:
                 ctx.evaluated(("success", ff, *cell), not bad and not obs["exc"])
@@ -1503,7 +1597,7 @@ def exec_case(ctx, runner, smap, case):
     kind = case.get("kind")
     if kind == "success":
         st = {"tag": case["tag"], "pdb": case["files"]["in.pdb"], "classes": case.get("classes", []), "opts": [a for a in case["argv"][1:-2]],
-              "n_res": case.get("n_res", 0), "cells": []}
+              "n_res": case.get("n_res", 0), "cells": [], "propka_rows": case.get("propka_rows"), "titrated": case.get("titrated", False)}
         _, obs, bad = run_success(ctx, runner, smap, st, case["ff"], {})
         return bad, obs
     if kind == "cli":
